@@ -54,12 +54,27 @@ DART_CLS = {"snax_alu": "cp", "snax_xdma": "dm", "snax_xdma_mul": "cp" if _dc14a
 
 
 def render(case):
+    """The module: function @f (the one that is compared and executed); with `other`, a second function @g of the same
+    module in front of it or behind it - insert-sync-barrier walks the module ONCE and never resets its pending list
+    between functions (Lean: C13_module_stateless)."""
+    other = case.get("other")
+    parts = []
+    if any(x[0] == "call" for c in [case] + ([other] if other else []) for x in walk_stmts(c["body"])):
+        parts.append(f"func.func private @ext({T}) -> ()\n")
+    fn = render_func(case, "f")
+    if other:
+        g = render_func(other, "g")
+        parts += [g, fn] if case.get("pos", "before") == "before" else [fn, g]
+    else:
+        parts.append(fn)
+    return "".join(parts)
+
+
+def render_func(case, name):
     out = []
     nb = case["nbuf"]
     args = ", ".join(f"%b{i} : {T}" for i in range(nb))
-    if any(x[0] == "call" for x in walk_stmts(case["body"])):
-        out.append(f"func.func private @ext({T}) -> ()")
-    out.append(f"func.func @f({args}, %c0 : i1, %c1 : i1, %lb : index, %ub0 : index, %ub1 : index, %st : index) {{")
+    out.append(f"func.func @{name}({args}, %c0 : i1, %c1 : i1, %lb : index, %ub0 : index, %ub1 : index, %st : index) {{")
     cnt = [0]
 
     def gen(a, b, c, ind):
@@ -831,7 +846,12 @@ class C13(Prop):
         n = 400 if tier == "quick" else 6000
         for _ in range(n):
             r = random.Random(rng.getrandbits(48))
-            yield gen_kernel(r) if r.random() < 0.25 else gen_case(r)
+            c = gen_kernel(r) if r.random() < 0.25 else gen_case(r)
+            if r.random() < 0.15:  # a second function in the module, before or after the one under test
+                o = gen_kernel(r) if r.random() < 0.5 else gen_case(r)
+                c["other"] = {"nbuf": o["nbuf"], "body": o["body"]}
+                c["pos"] = r.choice(["before", "before", "after"])
+            yield c
         if tier == "thorough":
             yield from exhaustive_cases()
 
@@ -900,13 +920,15 @@ class C13(Prop):
         if k != case.get("kind"):
             return k
         s = str(case["body"])
-        tags = (["cloop"] if "], [" in s and any(isinstance(x, list) and x and x[0] == "for" and len(x) > 2 and isinstance(x[2], list)
+        tags = (["module"] if case.get("other") else []) + (["cloop"] if "], [" in s and any(isinstance(x, list) and x and x[0] == "for" and len(x) > 2 and isinstance(x[2], list)
                                                    for x in walk_stmts(case["body"])) else []) + [t for t, w in (("loop", "'for'"), ("if", "'if'"), ("all", "'use'"), ("view", "'sv'"), ("dart", "'dart'"),
                                ("dealloc", "'dealloc'")) if w in s]
         return k + ":" + "+".join(tags or ["line"])
 
     def shrink(self, case):
         body = case["body"]
+        if case.get("other"):
+            yield {k: v for k, v in case.items() if k not in ("other", "pos")}
 
         def variants(stmts):
             for i, s in enumerate(stmts):
